@@ -573,3 +573,87 @@ func (r *Run) Watchdog(d time.Duration) {
 		}
 	}()
 }
+
+// ---- crash-tolerant workers ------------------------------------------------------------------
+//
+// Some violations kill the process (a panic in a goroutine started by the library
+// re-panics by design). SpawnTolerant runs the shards like Spawn, but a worker
+// records the case it is about to run (Progress); when a worker dies the parent
+// turns the recorded case into a violation through onCrash and restarts the shard
+// after that case.
+
+// Progress records the case about to run (index within the shard, description).
+func (r *Run) Progress(i int, desc string) {
+	if p := os.Getenv("VERIF_PROGRESS"); p != "" {
+		os.WriteFile(p, []byte(fmt.Sprintf("%d\n%s", i, desc)), 0o644)
+	}
+}
+
+// Skip is the case index the shard must resume at (0 on the first run).
+func (r *Run) Skip() int {
+	n, _ := strconv.Atoi(os.Getenv("VERIF_SKIP"))
+	return n
+}
+
+func (r *Run) SpawnTolerant(n int, arg string, onCrash func(desc string, stderrTail string)) {
+	self, err := os.Executable()
+	if err != nil {
+		r.Fault("%v", err)
+	}
+	dir, err := os.MkdirTemp("", "verif-w-")
+	if err != nil {
+		r.Fault("%v", err)
+	}
+	defer os.RemoveAll(dir)
+	var wg sync.WaitGroup
+	var mu sync.Mutex
+	for i := 0; i < n; i++ {
+		wg.Add(1)
+		go func(i int) {
+			defer wg.Done()
+			skip := 0
+			for attempt := 0; attempt < 40; attempt++ {
+				out := filepath.Join(dir, fmt.Sprintf("w%d-%d.json", i, attempt))
+				prog := filepath.Join(dir, fmt.Sprintf("p%d", i))
+				os.Remove(prog)
+				errPath := filepath.Join(dir, fmt.Sprintf("e%d", i))
+				ef, _ := os.Create(errPath)
+				cmd := exec.Command(self, "-tier", r.Tier)
+				cmd.Env = append(os.Environ(), fmt.Sprintf("VERIF_WORKER=%d/%d", i, n), "VERIF_WORKER_OUT="+out,
+					"VERIF_WORKER_ARG="+arg, "GOMAXPROCS=1", "VERIF_PROGRESS="+prog, fmt.Sprintf("VERIF_SKIP=%d", skip))
+				cmd.Stderr, cmd.Stdout = ef, ef
+				err := cmd.Run()
+				ef.Close()
+				if data, rerr := os.ReadFile(out); rerr == nil && err == nil {
+					var p partial
+					if json.Unmarshal(data, &p) == nil {
+						mu.Lock()
+						r.merge(&p)
+						mu.Unlock()
+					}
+					return
+				}
+				// the worker died: which case?
+				pd, _ := os.ReadFile(prog)
+				idx, desc, _ := strings.Cut(string(pd), "\n")
+				k, _ := strconv.Atoi(idx)
+				tail, _ := os.ReadFile(errPath)
+				if len(tail) > 1500 {
+					tail = tail[:1500]
+				}
+				mu.Lock()
+				if len(pd) == 0 {
+					mu.Unlock()
+					r.Fault("worker %d (%s) died before its first case: %s", i, arg, tail)
+				}
+				onCrash(desc, string(tail))
+				r.inexhaust = true
+				r.capsHit = append(r.capsHit, fmt.Sprintf("worker %d restarted after a crash at case %d; the counters of the crashed run are lost", i, k))
+				mu.Unlock()
+				skip = k + 1
+			}
+			r.Fault("worker %d (%s) crashed 40 times", i, arg)
+		}(i)
+	}
+	wg.Wait()
+}
